@@ -18,3 +18,7 @@ check("C07", "exhaustive single-value mutation of valid documents + Hypothesis d
       "Every path of 8 valid seed documents (rule, 6 correlation rules, filter) and 3 multi-document collections is deleted or replaced by each of 45 wrongly typed / out-of-range values, through from_dict, from_yaml and SigmaCollection.from_dicts/from_yaml, in strict and collecting mode; random double mutations and arbitrary nested data on top. Failures are bucketed by (exception type, innermost sigma/ frame) so each root cause is reported once.",
       "Domain: parsed YAML data with string keys; text-level duplicate keys are the YAML layer's rejection.",
       "DESIGN.md section 3, C07")
+check("C01", "Hypothesis grammar over (backend configuration, rule) + exhaustive condition-shape sweep; decode-and-compare truth-table oracle against an independent reference semantics",
+      "Queries of a verification backend family (6 precedence orders, parenthesize, 3 operator spellings, in-lists, shortcut expressions, not-equals mode, 3 escaping and 3 field-quoting profiles) are parsed back with the configuration's own precedence and quoting rules and compared, for every truth assignment of the atomic predicates, with a reference formula computed from the source document by code that shares nothing with pySigma. All condition shapes with <= 3 operators are swept under all 36 precedence/parenthesize/spelling combinations.",
+      "Trusted: vf/ref as the specification, vf/target/decoder.py as the target language's grammar; atoms independent; strings always quoted and the escape character self-escaped (backend soundness).",
+      "DESIGN.md section 3, C01")
